@@ -269,6 +269,8 @@ class HO:
                     return
                 if m in ("join",):
                     return
+                if m in ("update", "setdefault", "get") and kind == "dict":
+                    return  # keyed access / keyed merge into a mapping whose insertion order is already followed
                 # other methods (e.g. numpy): unknown
                 if kind == "set":
                     return
@@ -402,6 +404,19 @@ class HO:
             owner = enclosing_func(u) or fn
             self.context(owner, u, kind, chain)
 
+    def _follow_field(self, field: str, chain: List[str]):
+        if ("field", field) in self.visited:
+            return
+        self.visited.add(("field", field))
+        for m in self.repo.pkg_modules():
+            if m.relpath.startswith(PKG + "/resources"):
+                continue
+            for n in ast.walk(m.tree):
+                if isinstance(n, ast.Attribute) and n.attr == field and isinstance(n.ctx, ast.Load):
+                    owner = enclosing_func(n)
+                    if owner is not None:
+                        self.context(owner, n, "dict", chain + [f"read as `{flow.dump(n)[:40]}` in {owner.qualname}"])
+
     def _returned(self, fn: Func, node: ast.AST, kind: str, chain: List[str]):
         key = (fn.relpath, fn.qualname)
         if key in self.ret_memo:
@@ -459,6 +474,11 @@ class HO:
             # constructor of a repo class (NamedTuple / dataclass field)?
             nm = fname.split(".")[-1]
             if nm in self.repo.class_index or (nm in ("_replace", "replace") and kwname):
+                if kind == "dict" and kwname:
+                    # a mapping filled in hash order is kept in a field: as a mapping it is order-free; whoever iterates the
+                    # field is judged where it does so (the field's reads are followed like a hash-ordered mapping)
+                    self._follow_field(kwname, chain + [f"stored in field `{kwname}` of {nm}"])
+                    return
                 if kind != "set":
                     self.report(fn, call, "stored-order", f"a sequence in hash order is stored in field `{kwname or pos}` of {nm}", chain)
                 return
@@ -469,6 +489,13 @@ class HO:
                 return
             if fname.endswith("Error") or fname in ("Exception",):
                 return
+            if isinstance(call.func, ast.Attribute) and call.func.attr == "update" and kind == "dict" and pos == 0:
+                # mapping.update(keyed mapping): values land under their own keys; only the insertion order of NEW keys is
+                # the argument's order, so the receiving mapping is followed as a mapping in hash order from here on
+                recv = call.func.value
+                if isinstance(recv, ast.Name):
+                    self._follow_name(fn, recv.id, call, "dict", chain + [f"merged into `{recv.id}` by .update() (keyed)"])
+                    return
             self.report(fn, call, "unknown-callee", f"a sequence in hash order is passed to `{fname}`, which the analysis cannot resolve", chain)
             return
         # map argument to parameter
